@@ -9,8 +9,8 @@ from c13 import cur_snap
 GUARDS = [("failing-check-does-not-force-execution", hc.g_no_check_destroyed)]
 
 
-def plan(features):
-    cfg = hc.ALL_CACHE
+def plan(features, cfg=None):
+    cfg = cfg or hc.ALL_CACHE
 
     def p(h, r):
         notes = []
@@ -58,14 +58,19 @@ def witness_break():
     return p
 
 
-def witness_check():
+MIN_CACHE = {"mode": "min", "cache": True}
+
+
+def witness_check(cfg=None):
+    cfg = cfg or hc.ALL_CACHE
+
     def p(h, r):
         snap = {"nodes": [{"k": "t", "pkg": "p", "name": "t", "salt": "v0", "ins": [], "glob": None, "excl": [],
                            "outs": [("file", "o.txt")], "deps": [], "fp": {}, "nocache": False, "multi": False, "beh": "n",
                            "check": True, "comment": ""}], "files": {}}
-        h.set_sources(snap); h.build(hc.ALL_CACHE)
+        h.set_sources(snap); h.build(cfg)
         h.destroy_ext(0)
-        h.build(hc.ALL_CACHE)
+        h.build(cfg)
         return [("check-forces", len(h.builds) - 1, 0)]
     return p
 
@@ -85,7 +90,8 @@ def timeout_plan():
 def run(out, tier):
     n = 24 if tier == "quick" else 500
     feats = dict(hc.CLEAN); feats.update({"check": True, "fail": True})
-    plans = [("witness-check", witness_check()), ("witness-break", witness_break()), ("timeout", timeout_plan())] + [("checks", plan(feats))] * n
+    plans = [("witness-check", witness_check()), ("witness-check-minimal", witness_check(MIN_CACHE)), ("witness-break", witness_break()),
+             ("timeout", timeout_plan())] + [("checks", plan(feats))] * n + [("checks-minimal", plan(feats, MIN_CACHE))] * (n // 3)
     batch = hc.run_batch(plans, vlib.seed())
     hc.check_plan_errors(batch)
     findings = {f["class"]: f for f in vlib.known_findings("C14")}
